@@ -400,7 +400,12 @@ class Topology(ABC):
         :param name:
         :return:
         """
-        self.graph_model.remove_ns_with_cps_and_links(node_id=self._get_ns_by_name(name=name).node_id)
+        ns = self._get_ns_by_name(name=name)
+        # if the service peers with other services, the ports those hold for it go as well
+        for i in ns.interface_list:
+            for peer_port in (i.get_peers(itype=InterfaceType.ServicePort) or []):
+                self.graph_model.remove_cp_and_links(node_id=peer_port.node_id)
+        self.graph_model.remove_ns_with_cps_and_links(node_id=ns.node_id)
 
     def _get_node_by_name(self, name: str) -> Node:
         """
